@@ -133,6 +133,14 @@ def run(ctx):
             t = rng.choice((22, 22, 20))
             ver = rng.choice((0x0301, 0x0303, rng.randrange(65536)))
             vs = [gen_hs(rng, True) for _ in range(rng.choice((1, 1, 2, 3)))] if t == 22 else None
+            # payload sizes at the limits a serializer or parser might use (2^14, 2^14+256 = the record cap of C02, and around)
+            target = rng.choice((16383, 16384, 16385, 16639, 16640)) if rng.random() < .12 else None
+            if target and t == 22:
+                pre = rng.choice((0, 1, 2))
+                d = rng.randbytes(target - 4 - 4 * pre)
+                fin = V('fin', '(Finished %s)' % xb(d), '(Finished %s)' % xb(d), hs_wrap(20, d), 'msg_handshake')
+                hr = V('hr', 'HelloRequest', 'HelloRequest', hs_wrap(0, b''), 'msg_handshake')
+                vs = [hr] * pre + [fin]
             if t == 22:
                 if any(v.exp in (None, 'NYI') for v in vs):
                     exp, norm = ('generr NotYetImplemented' if any(v.exp == 'NYI' for v in vs) else None), None
@@ -143,7 +151,7 @@ def run(ctx):
                     exp = 'bytes ' + core.hexs(bytes([t]) + ver.to_bytes(2, 'big') + len(payload).to_bytes(2, 'big') + payload) if len(payload) <= 16640 else None
                 msgs = core.lst('(Hs %s)' % v.desc for v in vs)
             else:
-                k = rng.choice((1, 2, 5))
+                k = target or rng.choice((1, 2, 5))
                 payload = b'\1' * k
                 msgs = core.lst(['CCS'] * k); norm = msgs
                 exp = 'bytes ' + core.hexs(bytes([t]) + ver.to_bytes(2, 'big') + len(payload).to_bytes(2, 'big') + payload)
